@@ -111,5 +111,23 @@ impl FeeRateManager {
 //@ inject at /^\{/
     proof { axiom_price_at(); }
 //@ end
+
+//@ assume FeeRateManager::new and advance_tick_group_after_skip (adaptive bookkeeping; i32 tick-group arithmetic) are external stubs: new returns the Static manager when no adaptive-fee info is given and some well-formed manager otherwise; the skip bookkeeping keeps the manager well formed
+//@ fn manager/fee_rate_manager.rs new in=/^impl FeeRateManager \{/ -> r stub
+    requires static_fee_rate <= 60_000,
+    ensures
+        *adaptive_fee_info is None ==> (r matches Ok(m) && m == (FeeRateManager::Static { static_fee_rate })),
+        r matches Ok(m) ==> m.wf() && (m is Static <==> *adaptive_fee_info is None),
+//@ end
+//@ fn manager/fee_rate_manager.rs advance_tick_group_after_skip in=/^impl FeeRateManager \{/ -> r stub
+    requires old(self).wf(), *old(self) is Adaptive,
+    ensures r is Ok ==> final(self).wf() && *final(self) is Adaptive,
+//@ end
+//@ fn manager/fee_rate_manager.rs update_major_swap_timestamp in=/^impl FeeRateManager \{/ -> r
+    requires old(self).wf(), price_ok(pre_sqrt_price as int), price_ok(post_sqrt_price as int),
+        *old(self) matches FeeRateManager::Adaptive { adaptive_fee_constants, .. } ==> adaptive_fee_constants.major_swap_threshold_ticks as int <= 443636,
+    ensures *old(self) is Static ==> r is Ok && *final(self) == *old(self),
+        final(self).wf(),
+//@ end
 }
 }
